@@ -369,3 +369,40 @@ N("c-n-compare-reorder", TG, """        if self.platform.arch != target.platform
 N("w-n-dashes-len", TG, """    dashes = filename.count("-")
     if dashes not in (4, 5):""", """    dashes = len(filename.split("-")) - 1
     if not 4 <= dashes <= 5:""", props=["C18"])
+
+# ---------------------------------------------------------------- C06 / C04 / C17 / C11
+SI = "specifiers/__init__.py"
+M("r-guard-removed", R, """            if first_different >= len(min_stable) - 1 or first_different == 0:""", """            if first_different == 0:""", fire=["C06"])
+M("r-prerelease-dropped", R, """                and not self.max.is_prerelease
+""", "", fire=["C06"])
+M("r-str-cross", R, """return f'{">=" if self.include_min else ">"}{self.min},{"<=" if self.include_max else "<"}{self.max}'""", """return f'{">=" if self.include_max else ">"}{self.min},{"<=" if self.include_min else "<"}{self.max}'""", fire=["C06"])
+M("r-half-incl", R, '''return f"{'<=' if self.include_max else '<'}{self.max}"''', '''return f"{'<' if self.include_max else '<='}{self.max}"''', fire=["C06"])
+M("r-diff-1", R, "if max_stable[first_different] - min_stable[first_different] != 1:", "if max_stable[first_different] - min_stable[first_different] < 1:", fire=["C06"])
+M("r-tail-zero", R, "all(p == 0 for p in max_stable[first_different + 1 :])\n                and", "True\n                and", fire=["C06"])
+M("u-join", U, 'return "||".join(map(str, self.ranges))', 'return "|".join(map(str, self.ranges))', fire=["C06"])
+M("u-ne-guard", U, """            and left.max == right.min
+            and left.max is not None""", """            and left.max is not None""", fire=["C06"])
+# unreachable once the pre/post-release early return is in place (equal padded releases then differ only in suffixes): equivalent
+N("u-n-g4-guard-redundant", U, "0 < first_different < len(left_stable)", "first_different > 0", props=["C06"])
+M("u-g5-regress", U, """                or left.max.is_postrelease
+                or right.min.is_postrelease
+""", "", fire=["C06"])
+M("u-wild-epoch", U, 'epoch = "" if left.max.epoch == 0 else f"{left.max.epoch}!"', 'epoch = ""', fire=["C06"])
+M("i-empty-token", SI, 'if spec == "<empty>":', 'if spec == "<none>":', fire=["C06"])
+M("i-tilde-drop", SI, "_, max = _prefix_bounds(min.epoch, min.release[:-1])", "_, max = _prefix_bounds(min.epoch, min.release)", fire=["C06", "C04"])
+M("i-wild-incl", SI, """            min, max = _prefix_bounds(prefix.epoch, prefix.release)
+            include_min = True
+            include_max = False""", """            min, max = _prefix_bounds(prefix.epoch, prefix.release)
+            include_min = True
+            include_max = True""", fire=["C01", "C04"])
+M("i-ne-incl", SI, """                    RangeSpecifier(max=v, include_max=False),
+                    RangeSpecifier(min=v, include_min=False),""", """                    RangeSpecifier(max=v, include_max=False),
+                    RangeSpecifier(min=v, include_min=True),""", fire=["C01", "C04"])
+M("i-epoch-lost", SI, 'head = f"{epoch}!" if epoch else ""', 'head = ""', fire=["C04", "C17"])
+N("r-n-fstring-concat", R, '''return f"{'>=' if self.include_min else '>'}{self.min}"''', '''return ('>=' if self.include_min else '>') + str(self.min)''', props=["C06"])
+N("u-n-str-early", U, """        if self._simplified_form is not None:
+            return self._simplified_form
+        return "||".join(map(str, self.ranges))""", """        simplified = self._simplified_form
+        if simplified is None:
+            return "||".join([str(r) for r in self.ranges])
+        return simplified""", props=["C06"])
